@@ -1,7 +1,201 @@
-(* C18 placeholder: theorems land with Proofs/DeepEqProofs.v *)
-From Coq Require Import ZArith List.
-From V Require Import Result Proto DeepEq.
+(* C18 -- deep_eq is exact structural equality.
+   For two contents in the domain (deq_ok: UUIDs pairwise distinct, every reference resolves, expression offsets and
+   AuxData keys pairwise distinct, data blocks carry no decode mode) deep_eq is true iff they have the same normal form
+   `norm`: the content with every collection that the API treats as a set (modules, sections, intervals, blocks, symbols,
+   expressions, flags, attributes, edges, AuxData keys) put in canonical order and AuxData values erased -- i.e. the same
+   UUIDs and the same value in every compared field.  Hence it is reflexive, symmetric, insensitive to iteration order,
+   and false as soon as one compared field differs.
+   Model: Model/DeepEq.v (the deep_eq methods of ir.py, module.py, section.py, byteinterval.py, block.py, symbol.py,
+   symbolicexpression.py, cfg.py, auxdata.py, as coded: sorted by UUID, zipped after a length check, references compared
+   by the deep_eq of what they name) over the content records of Model/Proto.v.  Proofs: Proofs/DeepEqBase.v,
+   Proofs/DeepEqProofs.v.  Trusted: nothing beyond the model's agreement with the implementation (differential harness). *)
+From Coq Require Import ZArith List Permutation.
+From V Require Import Result Proto DeepEq DeepEqProofs.
 Import ListNotations.
-Theorem C18_block_deq_refl : forall b, block_deq b b = true.
-Proof. intro b. unfold block_deq. rewrite Bool.eqb_reflx, !Z.eqb_refl. destruct (cb_code b); reflexivity. Qed.
-Print Assumptions C18_block_deq_refl.
+Open Scope Z_scope.
+
+(* ---------- main statement ---------- *)
+Theorem C18_deep_eq_iff : forall a b, deq_ok a = true -> deq_ok b = true -> (ir_deq a b = true <-> norm a = norm b).
+Proof. exact deep_eq_iff. Qed.
+
+Theorem C18_refl : forall a, deq_ok a = true -> ir_deq a a = true.
+Proof. exact deep_eq_refl. Qed.
+
+Theorem C18_sym : forall a b, deq_ok a = true -> deq_ok b = true -> ir_deq a b = ir_deq b a.
+Proof. exact deep_eq_sym. Qed.
+
+(* two listings of the same content (same normal form) are indistinguishable by deep_eq against anything *)
+Theorem C18_order_insensitive : forall a a', deq_ok a = true -> deq_ok a' = true -> norm a = norm a' ->
+  forall b, deq_ok b = true -> ir_deq a b = ir_deq a' b.
+Proof. exact deep_eq_order_insensitive. Qed.
+
+(* any difference that survives normalisation -- a single compared field is enough -- makes it false *)
+Theorem C18_single_field : forall a b, deq_ok a = true -> deq_ok b = true -> norm a <> norm b -> ir_deq a b = false.
+Proof. exact deep_eq_single_field. Qed.
+
+(* AuxData: only the keys are compared *)
+Theorem C18_aux_values_ignored : forall a aux', map fst aux' = map fst (cr_aux a) ->
+  norm {| cr_uuid := cr_uuid a; cr_version := cr_version a; cr_modules := cr_modules a; cr_edges := cr_edges a;
+          cr_aux := aux' |} = norm a.
+Proof. exact aux_values_ignored. Qed.
+
+(* the domain contains every self-contained content of C01 whose AuxData tables are dicts (no key twice) *)
+Theorem C18_wf_in_domain : forall c, wf c = true -> aux_keys_ok c = true -> deq_ok c = true.
+Proof. exact wf_deq_ok. Qed.
+
+(* ---------- what `norm` forgets is exactly iteration order ---------- *)
+Theorem C18_norm_modules_order : forall a ms', NoDup (map cm_uuid (cr_modules a)) -> Permutation (cr_modules a) ms' ->
+  norm {| cr_uuid := cr_uuid a; cr_version := cr_version a; cr_modules := ms'; cr_edges := cr_edges a;
+          cr_aux := cr_aux a |} = norm a.
+Proof. exact norm_modules_order. Qed.
+
+Theorem C18_norm_sections_order : forall m ss', NoDup (map cs_uuid (cm_sections m)) -> Permutation (cm_sections m) ss' ->
+  norm_module {| cm_uuid := cm_uuid m; cm_name := cm_name m; cm_binary_path := cm_binary_path m; cm_isa := cm_isa m;
+                 cm_file_format := cm_file_format m; cm_byte_order := cm_byte_order m;
+                 cm_preferred_addr := cm_preferred_addr m; cm_rebase_delta := cm_rebase_delta m; cm_entry := cm_entry m;
+                 cm_proxies := cm_proxies m; cm_sections := ss'; cm_symbols := cm_symbols m; cm_aux := cm_aux m |}
+  = norm_module m.
+Proof. exact norm_module_sections_order. Qed.
+
+Theorem C18_norm_symbols_order : forall m ys', NoDup (map cy_uuid (cm_symbols m)) -> Permutation (cm_symbols m) ys' ->
+  norm_module {| cm_uuid := cm_uuid m; cm_name := cm_name m; cm_binary_path := cm_binary_path m; cm_isa := cm_isa m;
+                 cm_file_format := cm_file_format m; cm_byte_order := cm_byte_order m;
+                 cm_preferred_addr := cm_preferred_addr m; cm_rebase_delta := cm_rebase_delta m; cm_entry := cm_entry m;
+                 cm_proxies := cm_proxies m; cm_sections := cm_sections m; cm_symbols := ys'; cm_aux := cm_aux m |}
+  = norm_module m.
+Proof. exact norm_module_symbols_order. Qed.
+
+Theorem C18_norm_intervals_order : forall s bs', NoDup (map ci_uuid (cs_bis s)) -> Permutation (cs_bis s) bs' ->
+  norm_section {| cs_uuid := cs_uuid s; cs_name := cs_name s; cs_flags := cs_flags s; cs_bis := bs' |} = norm_section s.
+Proof. exact norm_section_bis_order. Qed.
+
+Theorem C18_norm_blocks_order : forall b ks', NoDup (map cb_uuid (ci_blocks b)) -> Permutation (ci_blocks b) ks' ->
+  norm_bi {| ci_uuid := ci_uuid b; ci_addr := ci_addr b; ci_size := ci_size b; ci_contents := ci_contents b;
+             ci_blocks := ks'; ci_symx := ci_symx b |} = norm_bi b.
+Proof. exact norm_bi_blocks_order. Qed.
+
+Theorem C18_norm_expressions_order : forall b xs', NoDup (map fst (ci_symx b)) -> Permutation (ci_symx b) xs' ->
+  norm_bi {| ci_uuid := ci_uuid b; ci_addr := ci_addr b; ci_size := ci_size b; ci_contents := ci_contents b;
+             ci_blocks := ci_blocks b; ci_symx := xs' |} = norm_bi b.
+Proof. exact norm_bi_symx_order. Qed.
+
+(* flags and attributes: lists denoting the same set have the same normal form *)
+Theorem C18_norm_set_canonical : forall l1 l2, (forall x, In x l1 <-> In x l2) -> norm_set l1 = norm_set l2.
+Proof. exact norm_set_canonical. Qed.
+
+(* ---------- the same statement level by level ---------- *)
+Theorem C18_block_iff : forall x y, blk_ok x = true -> blk_ok y = true -> (block_deq x y = true <-> x = y).
+Proof. exact block_deq_iff. Qed.
+
+Theorem C18_symbol_fwd : forall ca cb a b, symbol_deq ca cb a b = true -> a = b.
+Proof. exact symbol_deq_fwd. Qed.
+
+Theorem C18_symbol_refl : forall ca cb a,
+  (forall r, cy_payload a = CPRef r -> rnode_deq (find_ref ca r) (find_ref cb r) = true) -> symbol_deq ca cb a a = true.
+Proof. exact symbol_deq_refl. Qed.
+
+Theorem C18_expression_fwd : forall ca cb a b, expr_deq ca cb a b = true ->
+  cx_val a = cx_val b /\ norm_set (cx_attrs a) = norm_set (cx_attrs b).
+Proof. exact expr_deq_fwd. Qed.
+
+Theorem C18_expression_bwd : forall ca cb a b,
+  (forall s, In s (expr_syms a) -> osym_deq ca cb s s = true) ->
+  cx_val a = cx_val b -> norm_set (cx_attrs a) = norm_set (cx_attrs b) -> expr_deq ca cb a b = true.
+Proof. exact expr_deq_bwd. Qed.
+
+(* ctx_ok ca cb: the references of ca resolve in cb to deep_eq nodes; it holds whenever norm ca = norm cb *)
+Theorem C18_context_of_norm : forall a b, deq_ok a = true -> deq_ok b = true -> norm a = norm b -> ctx_ok a b.
+Proof. exact ctx_ok_of_norm. Qed.
+
+Theorem C18_interval_iff : forall ca cb a b, ctx_ok ca cb -> bi_deq_ok ca a = true -> bi_deq_ok cb b = true ->
+  (bi_deq ca cb a b = true <-> norm_bi a = norm_bi b).
+Proof. exact bi_deq_iff. Qed.
+
+Theorem C18_section_iff : forall ca cb a b, ctx_ok ca cb -> sec_deq_ok ca a = true -> sec_deq_ok cb b = true ->
+  (section_deq ca cb a b = true <-> norm_section a = norm_section b).
+Proof. exact section_deq_iff. Qed.
+
+Theorem C18_module_iff : forall ca cb a b, ctx_ok ca cb -> module_deq_ok ca a = true -> module_deq_ok cb b = true ->
+  (module_deq ca cb a b = true <-> norm_module a = norm_module b).
+Proof. exact module_deq_iff. Qed.
+
+Theorem C18_cfg_iff : forall a b, ctx_ok a b -> deq_ok a = true ->
+  (cfg_deq a b = true <-> sort edge_leb (cr_edges a) = sort edge_leb (cr_edges b)).
+Proof. exact cfg_deq_iff. Qed.
+
+(* ---------- the domain cannot be enlarged to "unique UUIDs + resolvable references" alone ---------- *)
+(* DataBlock.deep_eq ignores a decode mode: a data block record carrying one is deep_eq to the one without *)
+Theorem C18_iff_refuted_without_dm_clause :
+  exists a b, deq_ok_task a = true /\ deq_ok_task b = true /\ ir_deq a b = true /\ norm a <> norm b.
+Proof. exact deep_eq_iff_refuted_without_dm_clause. Qed.
+
+(* AuxData keys are compared as sets: an association list with a repeated key is deep_eq to the one without *)
+Theorem C18_iff_refuted_without_aux_clause :
+  exists a b, deq_ok_task a = true /\ deq_ok_task b = true /\ wf a = true /\ wf b = true
+              /\ ir_deq a b = true /\ norm a <> norm b.
+Proof. exact deep_eq_iff_refuted_without_aux_clause. Qed.
+
+(* ---------- non-vacuity ---------- *)
+Example C18_ex_domain : wf ex0 = true /\ deq_ok ex0 = true.
+Proof. exact ex0_wf. Qed.
+
+(* every child list, flag list, attribute list, edge list and AuxData table in the opposite order *)
+Example C18_ex_order : let a := ex0 in let b := ex_ir true false CPNone None None in
+  wf b = true /\ deq_ok b = true /\ ir_deq a b = true /\ ir_deq b a = true.
+Proof. exact ex_order. Qed.
+
+(* one field changed: a block's kind; a symbol's payload None -> value 0; an interval's address None -> 0;
+   an edge's label None -> all-false label of type 0 *)
+Example C18_ex_block_kind : let a := ex0 in let b := ex_ir false true CPNone None None in
+  wf b = true /\ deq_ok b = true /\ ir_deq a b = false /\ ir_deq b a = false.
+Proof. exact ex_block_kind. Qed.
+
+Example C18_ex_symbol_payload : let a := ex0 in let b := ex_ir false false (CPVal 0) None None in
+  wf b = true /\ deq_ok b = true /\ ir_deq a b = false /\ ir_deq b a = false.
+Proof. exact ex_symbol_payload. Qed.
+
+Example C18_ex_interval_addr : let a := ex0 in let b := ex_ir false false CPNone (Some 0) None in
+  wf b = true /\ deq_ok b = true /\ ir_deq a b = false /\ ir_deq b a = false.
+Proof. exact ex_interval_addr. Qed.
+
+Example C18_ex_edge_label : let a := ex0 in let b := ex_ir false false CPNone None (Some (0, false, false)) in
+  wf b = true /\ deq_ok b = true /\ ir_deq a b = false /\ ir_deq b a = false.
+Proof. exact ex_edge_label. Qed.
+
+Example C18_ex_order_and_kind : let a := ex0 in let b := ex_ir true true CPNone None None in
+  ir_deq a b = false /\ ir_deq b a = false.
+Proof. exact ex_order_and_kind. Qed.
+
+Example C18_ex_aux_values :
+  let a := ex0 in
+  let b := {| cr_uuid := cr_uuid a; cr_version := cr_version a; cr_modules := cr_modules a; cr_edges := cr_edges a;
+              cr_aux := [([99], {| a_type := [7; 7]; a_data := [] |})] |} in
+  ir_deq a b = true /\ ir_deq b a = true.
+Proof. exact ex_aux_values. Qed.
+
+Print Assumptions C18_deep_eq_iff.
+Print Assumptions C18_refl.
+Print Assumptions C18_sym.
+Print Assumptions C18_order_insensitive.
+Print Assumptions C18_single_field.
+Print Assumptions C18_aux_values_ignored.
+Print Assumptions C18_wf_in_domain.
+Print Assumptions C18_norm_modules_order.
+Print Assumptions C18_norm_sections_order.
+Print Assumptions C18_norm_symbols_order.
+Print Assumptions C18_norm_intervals_order.
+Print Assumptions C18_norm_blocks_order.
+Print Assumptions C18_norm_expressions_order.
+Print Assumptions C18_norm_set_canonical.
+Print Assumptions C18_block_iff.
+Print Assumptions C18_symbol_fwd.
+Print Assumptions C18_symbol_refl.
+Print Assumptions C18_expression_fwd.
+Print Assumptions C18_expression_bwd.
+Print Assumptions C18_context_of_norm.
+Print Assumptions C18_interval_iff.
+Print Assumptions C18_section_iff.
+Print Assumptions C18_module_iff.
+Print Assumptions C18_cfg_iff.
+Print Assumptions C18_iff_refuted_without_dm_clause.
+Print Assumptions C18_iff_refuted_without_aux_clause.
